@@ -300,6 +300,45 @@ def block_job(job):
     return acc
 
 
+PALETTE = (0, 1, 2, 3, 4, 5, 90, 89, 100, 1500, 0xFFA6, 0xFFA5, 0xFF00, 0x7FFF, 0x8000, 0xFFFF, 0x0101)
+
+
+def api_job(job):
+    """The same relations on the dictionary returned by the PUBLIC read_runtime_data() (all blocks merged, model filters and
+    any post-processing applied) of simulated ET / DT / ES inverters whose registers hold small codes and boundary words."""
+    from vlib import siminv
+    from vlib.harness import run_sync
+    fam, lo, hi, seed = job
+    acc = Acc()
+    serials = {"ET": [b"9010KETU000W0000", b"9010KETT000W0000", b"929K9ETT00W00001"], "DT": [b"9010KDTU000W0000", b"9010KMSU000W0000"],
+               "ES": [b"95048ESU000W0000"]}[fam]
+    for k in range(lo, hi):
+        def image(a, k=k):
+            m = mix(seed, k, a)
+            return PALETTE[m % len(PALETTE)] if (m >> 8) % 4 else (m >> 12) & 0xFFFF
+        cfg = {"family": fam, "serial": serials[k % len(serials)], "rated_power": (10000, 15000, 29900)[k % 3], "battery_mode": 1, "refuse": [],
+               "tcp": bool(k & 1)}
+        inv, sim = siminv.build_direct(cfg, default=image)
+        if fam == "ES":
+            sim.runtime[:] = bytes(((image(i) if i % 3 else image(i) >> 8) & 0xFF) for i in range(len(sim.runtime)))
+        acc.case()
+        case = {"api": True, "family": fam, "k": k, "seed": seed}
+        try:
+            run_sync(inv.read_device_info())
+            if fam == "ET":
+                sim.set(35184, 1 + k % 3)
+            d = run_sync(inv.read_runtime_data())
+        except Exception as ex:
+            acc.cls("api|%s" % type(ex).__name__)
+            continue
+        acc.nontrivial("api", fam, k, seed)
+        tname = {"ET": "all_sensors", "DT": "all_sensors", "ES": "sensors"}[fam]
+        payload = bytes(sim.runtime) if fam == "ES" else b""
+        for key, msg, c in check_relations(acc, fam, tname, payload, d):
+            acc.fail(key.replace("C13|%s|" % fam, "C13|%s|api|" % fam) if False else key, "[read_runtime_data] " + msg, case)
+    return acc
+
+
 def hyp_job(job):
     seed, n = job
     from hypothesis import strategies as st
@@ -353,11 +392,21 @@ def run(ctx):
         for lo in range(0, nblocks, step):
             bj.append((fam, tname, lo, min(nblocks, lo + step), ctx.seed))
     ctx.shard(block_job, bj, "patterned blocks with sentinels / sign bits, all relations of the table")
+    na = ctx.pick(1600, 30000)
+    aj = []
+    for fam in ("ET", "DT", "ES"):
+        step = (na + 4) // 5
+        for lo in range(0, na, step):
+            aj.append((fam, lo, min(na, lo + step), ctx.seed))
+    ctx.shard(api_job, aj, "relations on the merged dictionary of the public read_runtime_data() (simulated inverters, small-code / boundary register images)")
     n = ctx.pick(4000, 80000)
     ctx.shard(hyp_job, [(ctx.seed * 1000 + i, n // 16) for i in range(16)], "hypothesis blocks (word-level, boundary-biased)")
 
 
 def replay(ctx, case):
+    if case.get("api"):
+        ctx.acc.merge(api_job((case["family"], case["k"], case["k"] + 1, case["seed"])))
+        return
     payload = case["payload"]
     only = set(case["only"]) if case.get("only") else None
     d = map_block(case["family"], case["table"], payload)
